@@ -5,7 +5,7 @@ from ..repo import AnalysisError
 from ..report import Ob, RuleSpec
 from ..astutil import (flatten_guard, src, flat_guards, calls_in, call_name, kwarg, const_value,
                        iter_own_nodes, ancestors, is_within)
-from ..cfg import cfg_of, Prov
+from ..cfg import cfg_of, Prov, resolve_local
 from .. import variants as V
 from .c03 import frame_obligations, ALLOWED_SELF, r9_inferred_types_are_own
 
@@ -335,6 +335,46 @@ def r7_oracle_wiring(repo):
     return obs
 
 
+def same_tree_rule(repo, rid, classes):
+    """The dependency analysis hands out candidate nodes that *are* nodes of the program it was built from, and the
+    mutators write into those nodes.  The change is in the returned program only if the tree the transformation visits
+    (and returns) and the tree the analysis is built from are one object: `self.visit(self.program)` in
+    Transformation.transform, `TypeDependencyAnalysis(self.program, ...)` in the mutators - no copy in between."""
+    obs = []
+    f = repo.method("src.transformations.base.Transformation", "transform", inherited=False)
+    me = f.params[0]
+    visits = [k for k in calls_in(f.node) if call_name(k) == "visit" and src(k.func) == me + ".visit"]
+    args = [src(resolve_local(f.node, k.args[0])) if k.args else "-" for k in visits]
+    ok = len(visits) == 1 and args == [me + ".program"] and not visits[0].keywords
+    obs.append(Ob(rid, "Transformation.transform:visits-the-program-it-holds", _w(f), ok,
+                  "transform must visit `%s.program` itself (the object the analyses are built from); visits %s"
+                  % (me, args)))
+    n = 0
+    for q in classes:
+        c = repo.cls(q)
+        for m in sorted(c.methods.values(), key=lambda m: m.qualname):
+            for k in calls_in(m.node):
+                if call_name(k) != "TypeDependencyAnalysis":
+                    continue
+                n += 1
+                a = k.args[0] if k.args else kwarg(k, "program", 0)
+                got = src(resolve_local(m.node, a)) if a is not None else "-"
+                obs.append(Ob(rid, "%s:analysis#%d-built-from-the-visited-program" % (m.qualname, n), _w(m, k),
+                              got == m.params[0] + ".program",
+                              "the analysis must be built from `%s.program`; found `%s`" % (m.params[0], got)))
+    obs.append(Ob(rid, "analysis-construction-sites>=2", "src/transformations/", n >= 2, "%d sites" % n))
+    return obs
+
+
+def r9_same_tree(repo):
+    return same_tree_rule(repo, "C04-R9", ["src.transformations.type_overwriting.TypeOverwriting"])
+
+
+def r10_class_table(repo):
+    from .c09 import class_table_rule
+    return class_table_rule(repo, "C04-R10")
+
+
 def rules():
     return [
         RuleSpec("C04-R1", "write set of the overwriting mutation's call-graph closure", 10, r1_write_set),
@@ -346,6 +386,9 @@ def rules():
         RuleSpec("C04-R7", "oracle wiring", 4, r7_oracle_wiring),
         RuleSpec("C04-R8", "inferred type nodes of the dependency analysis carry the expression's own type", 12,
                  lambda repo: r9_inferred_types_are_own(repo, rule="C04-R8")),
+        RuleSpec("C04-R9", "the visited tree is the analysed tree", 4, r9_same_tree),
+        RuleSpec("C04-R10", "the class table handed to find_irrelevant_type: declarations, invariant built-in instantiations", 2,
+                 r10_class_table),
     ]
 
 
